@@ -142,9 +142,15 @@ class HSInit(Harness):
             else:
                 out.ob("valid_definition_not_rejected_by_init", False)
             return out
-        if "user" in p:
+        if "user" in p and "poll_mesh_multiplier" not in user and "tol_mesh" not in user:
             want = 2 if user.get("specify_target_noise") else (1 if user.get("uncertainty_handling") else 0)
             out.ob("noise_mode_follows_user_options", st["uncertainty_handling_level"] == want)
+        # the mesh tolerance used by the stopping test is the user's tolerance moved up to the next level of the mesh
+        # ladder multiplier^k (the mesh only takes these values): never below the user's value, less than one level above
+        mult, tol_user = float(opts["poll_mesh_multiplier"]), float(opts["tol_mesh"])
+        tm = float(st["tol_mesh"])
+        kk = math.log(tm) / math.log(mult)
+        out.ob("tol_mesh_snapped_to_mesh_ladder", abs(kk - round(kk)) < 1e-9 and tm >= tol_user * (1 - 1e-12) and tm < tol_user * mult * (1 + 1e-12))
         if cons:
             out.ob("accepted_snapped_x0_feasible", O.And(*[O.Not(a) for _, ans in cons_calls for a in ans]))
             out.ob("snapped_x0_feasibility_checked", len(cons_calls) >= 1)
